@@ -6,6 +6,9 @@
 (*       z0[s]       = 1  the initial distribution lists s with probability 0            *)
 (*     (msdm's DictDistribution.support is the key set, zero entries included, and LAO*  *)
 (*     creates a node for every listed successor).                                       *)
+(*     Optional fields: lev, B (large-magnitude family: the real rewards are shaped by     *)
+(*     potentials B*lev[s], see Lev below), rare (rare-transition family, see Exactable);  *)
+(*     the discount GN/GD may be 0.                                                      *)
 (* (O) oracle: MDP!OptimalValue (= V* ), MDP!PolicyValue (exact return of a policy),        *)
 (*     MDP!Proper (instance filter when undiscounted).                                   *)
 (* (R) reference machine = msdm/algorithms/laostar.py, one action per step of the code:  *)
@@ -76,7 +79,22 @@ NNonAbs(m)      == Cardinality(NonAbs(m))
 E(m)            == m.PD * m.GD
 MaxAbsR(m)      == MaxSet({0} \cup {AbsI(m.R[s][a][t]) : s \in St(m), a \in Ac(m), t \in St(m)})
 \* the exact machine runs only where its integers provably stay below 2^30 (see Fits)
-Exactable(m)    == E(m) <= 8 /\ NNonAbs(m) <= 3
+\* rare-transition instances (field `rare`): the record is the epsilon -> 0 limit of the real MDP (the driver
+\* derives the perturbation bound); the step-by-step machine is not compared there
+Exactable(m)    == E(m) <= 8 /\ NNonAbs(m) <= 3 /\ ~("rare" \in DOMAIN m)
+\* well-formedness with a discount that may be 0 (discount_rate = 0 is a legal - falsy - discounted MDP)
+WF(m) ==
+  /\ \A s \in St(m) : \A a \in Avail(m, s) : SumTo([t \in St(m) |-> m.P[s][a][t]], m.N) = m.PD
+  /\ \A s \in St(m), a \in Ac(m), t \in St(m) : m.P[s][a][t] >= 0
+  /\ SumTo([s \in St(m) |-> m.p0[s]], m.N) = m.ID
+  /\ m.GN >= 0 /\ m.GN <= m.GD
+\* large-magnitude family (fields lev, B): the real MDP pays R(s,a,t) - B*lev[s] + gamma*B*lev[t] with a huge B
+\* (potential-based shaping, lev = 0 at absorbing states): every policy value, Q value, heuristic and held value of
+\* state s is shifted by exactly -B*lev[s], so optimal actions, ancestor sets and revised values (in model units,
+\* i.e. with the shift added back) are those of the record.  Only comparisons of values of *different* states see
+\* the shift: tips are ranked by lev first (B exceeds every difference of held model values, |val| <= 60).
+Lev(m, s) == IF "lev" \in DOMAIN m THEN m.lev[s] ELSE 0
+LevOK(m)  == "lev" \in DOMAIN m => (m.B >= 1000 /\ \A s \in St(m) : m.lev[s] >= 0 /\ (IsAbs(m, s) => m.lev[s] = 0))
 
 IsPermOf(sq, S) == Len(sq) = Cardinality(S) /\ Range(sq) = S
 PermSeqs(S)     == LET n == Cardinality(S) IN
@@ -135,10 +153,12 @@ SGC(nd, S, k) ==
        IF nxt = S THEN S ELSE SGC(nd, nxt, k - 1)
 SolGraph(m, nd, ord) == SGC(nd, Range(ord), m.N)
 Tips(m, nd, ord)     == {s \in SolGraph(m, nd, ord) : ~nd[s].exp}
-\* best_breadth_first_tip_state: highest value, then earliest visit order
-BestTip(nd, tips) ==
+\* best_breadth_first_tip_state: highest value (real value = val - B*lev), then earliest visit order
+BestTip(m, nd, tips) ==
   CHOOSE s \in tips : \A t \in tips \ {s} :
-     RLess(nd[t].val, nd[s].val) \/ (~RLess(nd[s].val, nd[t].val) /\ nd[s].vo < nd[t].vo)
+     \/ Lev(m, s) < Lev(m, t)
+     \/ /\ Lev(m, s) = Lev(m, t)
+        /\ RLess(nd[t].val, nd[s].val) \/ (~RLess(nd[s].val, nd[t].val) /\ nd[s].vo < nd[t].vo)
 
 \* update_ancestors_of: parents whose current best action lists the member
 RECURSIVE Anc(_, _, _)
@@ -302,7 +322,7 @@ ExpandMC ==
   /\ Mode = "mc" /\ phase = "loop"
   /\ Tips(M, nodes, inits) # {}
   /\ IF ~ValuesSmall(nodes) THEN Stop("cut", "magnitude")
-     ELSE LET s == BestTip(nodes, Tips(M, nodes, inits)) IN
+     ELSE LET s == BestTip(M, nodes, Tips(M, nodes, inits)) IN
           \E nsF \in ProdF([a \in Avail(M, s) |-> NsChoices(M, cfg, s, a)], Avail(M, s)) :
           \E aoF \in ProdF([t \in NewSucc(s) |-> AoChoices(M, cfg, t)], NewSucc(s)) :
              ExpandWith(s, nsF, aoF) /\ note' = note
@@ -317,7 +337,7 @@ ExpandTrace ==
           ELSE IF \E t \in NewSucc(s) : ~AoLegal(M, cfg, t, M.log.ao[t]) THEN Stop("reject", "action-order")
           ELSE /\ ExpandWith(s, M.log.ns[s], M.log.ao)
                \* the code compares floats: a tip that is not the exact best one is only flagged
-               /\ note' = LET b == BestTip(nodes, Tips(M, nodes, inits)) IN
+               /\ note' = LET b == BestTip(M, nodes, Tips(M, nodes, inits)) IN
                           IF s = b THEN note ELSE Append(note, Note("tip-not-exact-best", b))
 
 \* revise_value_from
@@ -378,7 +398,7 @@ JudgeValue(m)   == PolicyValue(m, UniformW(m, RealSupport(m)), 6)
 
 \* ------------------------------------------------------------------ emission
 VInit == InitialValue(M, vstar)
-Filter(m) == [wf |-> WellFormed(m), few |-> NNonAbs(m) <= 3,
+Filter(m) == [wf |-> WF(m), few |-> NNonAbs(m) <= 3,
               acts |-> \A s \in St(m) : Avail(m, s) # {},
               proper |-> Discounted(m) \/ Proper(m)]
 Emit ==
@@ -410,7 +430,7 @@ BellmanCertified(m, V) ==
                     ELSE IsFin(V[s]) /\ V[s] = RMaxSet({QFromV(m, V, s, a) : a \in Avail(m, s)})
 InstanceOK ==
   phase = "init" =>
-     /\ WellFormed(M) /\ NNonAbs(M) <= 3
+     /\ WF(M) /\ LevOK(M) /\ NNonAbs(M) <= 3
      /\ \A s \in St(M) : Avail(M, s) # {}
      /\ IF Mode = "trace" THEN BellmanCertified(M, vstar) ELSE (Discounted(M) \/ Proper(M))
      /\ Machine => \A s \in St(M) : IsFin(cfg.H[s]) /\ ~RLess(RNorm(cfg.H[s]), vstar[s])     \* admissible heuristic
